@@ -704,10 +704,38 @@ class Interp:
                     args.append(r(0 if b else i))
             return fn(*args)
 
+        cn = concrete_int(n)
+        if cn is not None and cn <= 64:
+            # numpy evaluates eagerly: do the same when the length is concrete (each element is computed exactly once)
+            return LArr(cn, self._list_reader([get(i) for i in range(cn)]), dtype=dtype)
         return LArr(n, get, dtype=dtype)
 
     # ------------------------------------------------------------------------------------------ scalar arithmetic
+    def _is_inf(self, x):
+        return isinstance(x, float) and x in (float("inf"), float("-inf"))
+
+    def _inf_binop(self, op, a, b, node=None):
+        """arithmetic with a concrete +-inf operand and a symbolic one: the sign of the symbolic operand is decided on the path"""
+        pos = lambda x: x > 0
+        if isinstance(op, (ast.Add, ast.Sub)):
+            if self._is_inf(a):
+                return a
+            return b if isinstance(op, ast.Add) else -b
+        if isinstance(op, ast.Mult) or (isinstance(op, ast.Div) and self._is_inf(a)):
+            inf, z = (a, b) if self._is_inf(a) else (b, a)
+            if self.branch(to_real(z) > 0):
+                return inf
+            if self.branch(to_real(z) < 0):
+                return -inf
+            self.oblige("defined", "inf-times-zero@L%s" % getattr(node, "lineno", "?"), False, getattr(node, "lineno", None), note="inf*0 or inf/0 is NaN")
+            raise Infeasible()
+        if isinstance(op, ast.Div) and self._is_inf(b):
+            return 0.0
+        raise Unsupported("operator %s with an infinite operand" % type(op).__name__)
+
     def num_binop(self, op, a, b, node=None):
+        if (self._is_inf(a) and is_z3(b)) or (self._is_inf(b) and is_z3(a)):
+            return self._inf_binop(op, a, b, node)
         if not is_z3(a) and not is_z3(b):
             try:
                 return self._py_binop(op, a, b)
@@ -1600,6 +1628,16 @@ class Interp:
 
     # ------------------------------------------------------------------------------------------ expressions
     def eval(self, node, env):
+        stubs = getattr(self, "expr_stubs", None)
+        if stubs and isinstance(node, (ast.Call, ast.Attribute, ast.Compare, ast.Subscript)):
+            key = ast.unparse(node).replace('"', "'")
+            if key in stubs:
+                # an external sub-expression named by the contract: its value is the ghost parameter (assumed contract on a dependency)
+                self.assumptions_log.add("stub: `%s` is the contract's ghost value %s (external code; assumed, not verified)" % (key, stubs[key]))
+                v = self.ghost_env[stubs[key]]
+                if isinstance(v, LArr):
+                    return LArr(v.n, v.get, True, v.dtype)  # a fresh array each time (TimeSeries.interpolate allocates)
+                return v
         m = getattr(self, "e_" + type(node).__name__, None)
         if m is None:
             raise Unsupported("expression %s at line %s" % (type(node).__name__, getattr(node, "lineno", "?")))
